@@ -12,14 +12,15 @@ CHECK = {
                   "computed in boost cpp_int from frexp-decoded integers in a different formulation "
                   "(untranslated homogeneous 4x4 / lifted 5x5 determinant, first-row expansion); adaptive must "
                   "equal exact on every input; all 24/120 point permutations must flip or keep the sign. Part "
-                  "rescale": the real NewVoronoiGrid constructor is run on sides^3 x anchors^3 box alphabets and every "
+                  "'rescale': the real NewVoronoiGrid constructor is run on sides^3 x anchors^3 box alphabets and every "
                   "coordinate it hands to the predicates (rescaled generators, wall copies, tetrahedron corners) must "
                   "lie in [1,2). The property quantifies over a continuum, so it is decided on these alphabets only.",
     "level_note": "Exhaustive over the listed alphabets and families, nothing is claimed for other coordinates. "
                   "Coordinates are restricted to the normalised range [1,2) the predicates are specified for. "
                   "Quick: orientation 4^12 (contains the 3^12 sub-alphabets), in-sphere 3 x 2^15 + 3^15, families "
-                  "with k = +-1..32 and a ladder; thorough adds a second orientation 4^12 alphabet with an ulp pair "
-                  "at 1.5, two more in-sphere 3^15 alphabets, every k = +-1..1000 and two more shapes.",
+                  "with k = +-1..32 and a ladder; thorough adds orientation {1,1.5,1.5+ulp,2-ulp} (4^12) and "
+                  "{1,1+ulp,1.5,1.5+ulp,2-ulp} (5^12), four more in-sphere 3^15 alphabets, every k = +-1..1000 and "
+                  "two more shapes.",
     "quick_deadline": 90,
     "thorough_deadline": 1200,
     "parts": [{"name": "predicates", "bin": "c17_predicates", "share": 9},
